@@ -11,6 +11,7 @@ func init() {
 				"strings.HasSuffix": "hasSuffix", "strings.TrimPrefix": "trimPrefix", "filepath.IsAbs": "isAbs"},
 			RetType: "Res", Ok: ".ok %s", Err: ".invalid", StrAsLst: true,
 		})
+		s += "\n" + c13TwoPathFacts(repo)
 		s += "\nend Risor.Generated.C13\n"
 		return s
 	}})
